@@ -108,6 +108,12 @@ def run(tier, seed, flavour="plain", prop="C09"):
                 if cnt.get("%s|%s|%s" % (k, s, t), 0) == 0:
                     V.inconclusive.append("%s: %s is zero for %s" % (s, k, t))
 
+    alias = {k.split("|", 1)[1]: v for k, v in cnt.items() if k.startswith("alias_probes|")}
+    for sh in SHAPES:
+        for t in TYPES:
+            if alias.get("%s|%s" % (sh, t), 0) == 0:
+                V.inconclusive.append("no compound assignment with an operand inside the object itself was observed for %s<%s>" % (sh, t))
+
     def per_type(prefix):
         out = {}
         for k, v in mx.items():
@@ -135,6 +141,7 @@ def run(tier, seed, flavour="plain", prop="C09"):
         "samples": m["samples"],
         "operations_enumerated": len(expected), "operations_observed": len([o for o in expected & registered]),
         "observations_per_operation": table,
+        "compound_assignments_with_an_operand_inside_the_object_itself(x*=x[i], x/=x[i], x+=x, x-=x; bit-exact against a copied operand)": alias,
         "max_error_in_units_of_ulp_plus_Delta(bound 4)": per_type("max_cond"),
         "max_error_in_units_of_u_times_sum_abs_monomials(bound = depth)": per_type("max_err_over_uM"),
         "observations_accepted_only_by_the_forward_error_bound": {k.split("|", 1)[1]: v for k, v in cnt.items()
